@@ -49,6 +49,17 @@ pub fn cases(quick: bool, seed: u64) -> Vec<Value> {
     subtag_cases(&mut out, "script", SubtagKind::Script, gen::SCRIPTS, &mut r, 8 * k);
     subtag_cases(&mut out, "region", SubtagKind::Region, gen::REGIONS, &mut r, 8 * k);
     subtag_cases(&mut out, "variant", SubtagKind::Variant, gen::VARIANTS, &mut r, 12 * k);
+    // the same literal text handed to every subtag macro, in both orders (a text can be a well-formed language
+    // and an ill-formed script; whatever one macro learned about it must not carry over to the next one)
+    let kinds = [("region", SubtagKind::Region), ("lang", SubtagKind::Language), ("variant", SubtagKind::Variant), ("script", SubtagKind::Script)];
+    for (n, text) in ["us", "US", "aa", "abc", "ABC", "latn", "Latn", "1996", "abcde", "abcdefgh", "001", "und", "a1b2c", "en", "posix", "12345678"].iter().enumerate() {
+        let order: Vec<usize> = if n % 2 == 0 { vec![0, 1, 2, 3, 1, 0] } else { vec![3, 2, 1, 0, 2, 3] };
+        for k in order {
+            let (mac, kind) = kinds[k];
+            let ok = subtag_expect(kind, text.as_bytes()).is_some();
+            out.push(json!({"macro": mac, "lits": [text], "expect": if ok { "ok" } else { "err" }}));
+        }
+    }
     // langid!
     for s in ["en", "und", "UND-latn", "en_us", "EN-latn-us-VALENCIA-1996", "sr-Cyrl-RS", "de-1996-macos-1996", "zh-Hant-TW", "und-419", "abcdefgh-abcde", "undef-Latn-US", "UNDabcde", "en-Latn-001-valencia-1996-macos-abcdefgh-12345-zzzzz-a1b2c-nedis-fonipa"] {
         out.push(json!({"macro": "langid", "lits": [s], "expect": "ok"}));
